@@ -85,11 +85,13 @@ class Gen:
                 op = self.pick(["+", "-", "*", "+", "-", "/", "%", "&", "|", "^"])
                 return ("binary", op, self.operand(ty, d + 1), self.operand(ty, d + 1))
             if r < 0.6:
-                return ("binary", self.pick(["<<", ">>"]), self.operand(ty, d + 1), self.pick([("int", self.pick([0, 1, 2, 5, 31, 33])), self.operand(ty, d + 1)]))
+                # the left operand of a shift is never a bare literal: in C++ the result of `16 << u` has the type of the LEFT operand (int), while qmluic types the
+                # literal after the other operand -- outside what docs/language.md settles, so not generated
+                return ("binary", self.pick(["<<", ">>"]), self.typed(ty, d + 1), self.pick([("int", self.pick([0, 1, 2, 5, 31, 33])), self.operand(ty, d + 1)]))
             if r < 0.7:
                 return ("unary", self.pick(["-", "~", "+"]), self.typed(ty, d + 1))
             if r < 0.8:
-                return ("ternary", self.expr("bool", d + 1), self.typed(ty, d + 1), self.operand(ty, d + 1))
+                return ("ternary", self.expr("bool", d + 1), self.typed(ty, d + 1), self.typed(ty, d + 1))
             if r < 0.9:
                 other = "uint" if ty == "int" else "int"
                 return ("as", self.typed(other, d + 1), [ty])
